@@ -1,8 +1,9 @@
 import CogentModel.Props.C17
 import CogentModel.Proofs.AnnotDbX
+import CogentModel.Proofs.AnnotDbLike
 /-! # C17 (extension) — rows without a location, alignment features, GenBank record loading
 
-`featuresTables`, `recordsTables`, `countTables`, `featuresKeepOa`, `recordsKeepOa`, `countKeepOa`, `subsetStart`, `subsetStop`, `attrWrapRecords`, `attrWrapCount`,
+`featuresTables`, `recordsTables`, `countTables`, `featuresKeepOa`, `recordsKeepOa`, `countKeepOa`, `mixinChildPattern`, `mixinChildColumn`, `subsetStart`, `subsetStop`, `attrWrapRecords`, `attrWrapCount`,
 `childSkip`, `parentSkip` are **generated** from the current source of `core/annotation_db.py`
 (`Gen/C17Query.lean`, `translator/c17_query2lean.py`); the first six theorems re-prove on every run
 that they mean what the hand model and the spec say, for all arguments. -/
@@ -400,6 +401,79 @@ example :
     let db : XDb := { kind := .genbank, main := [g, c], user := [] }
     gbChildrenX db "abc" none (some "gene") 9 50 = .ok [c] ∧ gbParentX db "abc" (some "CDS") 12 50 = .ok [g] ∧
     gbChildrenX db "abc" none none 10 50 = .ok [c] := by
+  decide +kernel
+
+/-! ### substring searches: `attributes=` and the mixin's `get_feature_children` -/
+
+/-- text without the LIKE wildcards -/
+def Plain (s : String) : Prop := ∀ c ∈ s.toList, c ≠ '%' ∧ c ≠ '_'
+
+/-- `a` occurs in `t` as a contiguous piece, ASCII letter case ignored -/
+def ContainsCI (a t : String) : Prop :=
+  ∃ pre m post, t.toList = pre ++ m ++ post ∧ m.map lowerAscii = a.toList.map lowerAscii
+
+theorem wrapped_like (a : String) (ha : Plain a) (col : Option String) :
+    colCond (.one ("%" ++ a ++ "%")) col = true ↔ ∃ t, col = some t ∧ ContainsCI a t := by
+  cases col with
+  | none => simp [colCond]
+  | some t =>
+    have e : ("%" ++ a ++ "%").toList = '%' :: (a.toList ++ ['%']) := by
+      simp [String.toList_append]
+    simp only [colCond, e, List.contains_cons, BEq.rfl, Bool.true_or, if_true, Option.some.injEq, exists_eq_left']
+    exact like_substring a.toList ha t.toList
+
+/-- **The `attributes` search is the documented substring search**: for a non-empty text without `%` / `_`
+the condition `_get_records_matching` / `num_matches` put on the attributes column holds exactly when the text
+occurs in the stored attributes (ASCII case ignored); a NULL attributes column matches nothing. -/
+theorem attributes_search_is_substring (a : String) (hne : a ≠ "") (ha : Plain a) (col : Option String) :
+    colCond (.one (prepAttr a)) col = true ↔ ∃ t, col = some t ∧ ContainsCI a t := by
+  have hd : ∀ l : List Char, (∀ c ∈ l, c ≠ '%') → hasDoublePercent l = false := by
+    intro l
+    induction l with
+    | nil => intro _; rfl
+    | cons c cs ih =>
+      intro h
+      have hc : c ≠ '%' := h c (List.mem_cons_self ..)
+      have := ih fun x hx => h x (List.mem_cons_of_mem _ hx)
+      cases cs with
+      | nil => simp [hasDoublePercent]
+      | cons d ds => unfold hasDoublePercent; split <;> simp_all
+  have : prepAttr a = "%" ++ a ++ "%" := by
+    unfold prepAttr
+    rw [if_pos ⟨hne, by simp [hd a.toList fun c hc => (ha c hc).1]⟩]
+  rw [this]
+  exact wrapped_like a ha col
+
+example : colCond (.one (prepAttr "zq")) (some "note=ZQ;k0") = true ∧ colCond (.one (prepAttr "zq")) (some "note=z_q") = false ∧
+    colCond (.one (prepAttr "zq")) none = false := by decide +kernel
+
+/-- the mixin's `get_feature_children` searches the `parent_id` column for `%name%` (generated, re-proved each run) -/
+theorem mixin_child_pattern (name : String) :
+    mixinChildPattern name = "%" ++ name ++ "%" ∧ mixinChildColumn = "parent_id" := ⟨rfl, rfl⟩
+
+/-- **Children by `parent_id` (GffAnnotationDb / BasicAnnotationDb)**: for a name without `%` / `_`, when every
+selected row has a location, `get_feature_children(name, biotype)` returns exactly the rows whose `parent_id`
+mentions `name` (substring, ASCII case ignored) and that have the asked biotype — whatever window is passed. -/
+theorem mixin_children_is_scan (rows : List PRec) (name : String) (hn : Plain name) (biotype : Option String) (l : List PRec)
+    (h : mixinChildren rows name biotype = .ok l) :
+    ∀ r, r ∈ l ↔ (r ∈ rows ∧ (∃ t, r.parent = some t ∧ ContainsCI name t) ∧
+      btCond biotype r.x.row = true) := by
+  unfold mixinChildren at h
+  split at h
+  · rw [← Except.ok.inj h]
+    intro r
+    unfold childSel
+    have hc : ∀ r : PRec, r.col mixinChildColumn = r.parent := fun r => by
+      rw [(mixin_child_pattern name).2]; simp [PRec.col]
+    simp only [List.mem_filter, Bool.and_eq_true, (mixin_child_pattern name).1, hc, wrapped_like name hn]
+  · exact absurd h (by simp)
+
+example :
+    let g : PRec := ⟨{ row := mkUserRec "s1" "gene" "ab0" (some "+") none [(0, 9)], located := true, onAln := none }, none⟩
+    let c : PRec := ⟨{ row := mkUserRec "s1" "cds" "c1" (some "+") none [(2, 4)], located := true, onAln := none }, some "AB0"⟩
+    let d : PRec := ⟨{ row := mkUserRec "s1" "exon" "e1" (some "+") none [(5, 7)], located := true, onAln := none }, some "x,ab01"⟩
+    let e : PRec := ⟨{ row := mkUserRec "s1" "exon" "e2" (some "+") none [(5, 7)], located := true, onAln := none }, some "a_b0"⟩
+    mixinChildren [g, c, d, e] "ab0" none = .ok [c, d] ∧ mixinChildren [g, c, d, e] "ab0" (some "exon") = .ok [d] := by
   decide +kernel
 
 end CogentModel.C17X
